@@ -318,6 +318,85 @@ def _loads_calls_load(src):
     return False
 
 
+class _Inline(ast.NodeTransformer):
+    """Replaces locals bound exactly once by the expression they were bound to (everywhere inside an expression)."""
+
+    def __init__(self, single):
+        self.single = single
+        self.depth = 0
+
+    def visit_Name(self, node):
+        if isinstance(node.ctx, ast.Load) and node.id in self.single and self.depth < 6:
+            self.depth += 1
+            try:
+                return self.visit(NZ.copy.deepcopy(self.single[node.id]))
+            finally:
+                self.depth -= 1
+        return node
+
+
+def _empty_text_test(e, param):
+    """Is `e` a test of the parameter being the empty text?  -> the outcome of `e` that means "empty", or None."""
+    if _is_name(e, param):
+        return False  # `if data:` is true for a non-empty text
+    if isinstance(e, ast.Compare) and len(e.ops) == 1:
+        a, b = e.left, e.comparators[0]
+        for x, y in ((a, b), (b, a)):
+            is_len = isinstance(x, ast.Call) and _is_name(x.func, "len") and len(x.args) == 1 and _is_name(x.args[0], param) \
+                and not x.keywords
+            if (_is_name(x, param) and isinstance(y, ast.Constant) and y.value == "") or \
+                    (is_len and isinstance(y, ast.Constant) and y.value == 0 and type(y.value) is int):
+                if isinstance(e.ops[0], ast.Eq):
+                    return True
+                if isinstance(e.ops[0], ast.NotEq):
+                    return False
+    return None
+
+
+def _loads_returns(src):
+    """Every way out of jsonrpc.loads(data, config) by `return`: [(conditions on the path, returned expression)], sorted.
+    Conditions: the atomic tests in evaluation order with their outcome, `; `-separated; a test of the text being empty (`data ==
+    ""`, `not data`, `len(data) == 0`, …) is written `empty(data)` / `not empty(data)`.  Returned expression: locals bound once
+    replaced by what they were bound to.  The model (`Payload.loads`) is: `None` for the empty text, `load(jloads(data), config)`
+    for every other text — whatever else reads the raw text (a substring test, a prefix test, a length test) shows here."""
+    fn = NZ.normalised(src, "jsonrpc", "loads")
+    if fn is None:
+        return None
+    params = [a.arg for a in fn.args.args]
+    if not params:
+        return None
+    param = params[0]
+    single = NZ.single_assignments(fn)
+    try:
+        w = NZ.Walk(NZ.strip_doc(fn.body), lambda n: isinstance(n, ast.Return))
+    except NZ.TooComplex:
+        return None
+    out = []
+    for conds, st in w.hits:
+        cs = []
+        for e, outcome, _owner in conds:
+            if e is None:
+                cs.append("except")
+                continue
+            emp = _empty_text_test(e, param)
+            if emp is not None:
+                cs.append("empty(%s)" % param if outcome == emp else "not empty(%s)" % param)
+            else:
+                text = ast.unparse(_Inline(single).visit(NZ.copy.deepcopy(e)))
+                cs.append(text if outcome else "not (%s)" % text)
+        # consecutive duplicates (the same test met twice on a path) say nothing new
+        dedup = []
+        for c in cs:
+            if not dedup or dedup[-1] != c:
+                dedup.append(c)
+        ret = st if isinstance(st, ast.Return) else next((n for n in NZ.dfs_own(st) if isinstance(n, ast.Return)), None)
+        val = "None" if ret is None or ret.value is None else ast.unparse(_Inline(single).visit(NZ.copy.deepcopy(ret.value)))
+        out.append(("; ".join(dedup), val))
+    if w.falls:
+        out.append(("<falls off the end>", "None"))
+    return sorted(set(out))
+
+
 CONFIG_POS = {"dump": 6, "dumps": 7, "load": 1, "loads": 1, "Fault": 4}
 
 
@@ -425,4 +504,10 @@ def facts(src):
     ll = _loads_calls_load(src)
     out.append(Fact("loadsCallsLoad", "Bool", None if ll is None else lean_bool(ll), ["C08"],
                     "jsonrpc.loads returns load(<parsed text>, config)", json_value=ll))
+    lr = _loads_returns(src)
+    out.append(Fact("loadsReturns", "List (String × String)",
+                    None if not lr else lean_list("(%s, %s)" % (lean_str(c), lean_str(v)) for c, v in lr), ["C08"],
+                    "every way out of jsonrpc.loads: (conditions on the path, returned expression) — None for the empty text, "
+                    "load(jloads(data), config) otherwise; nothing else reads the raw text",
+                    json_value=None if lr is None else [list(x) for x in lr]))
     return out
